@@ -272,9 +272,13 @@ fn gen(rng: &mut Rng, _i: u64) -> String {
 		};
 		qs.push(q);
 	}
+	// a mapped view loaded at another address than the preferred one: get_proc_address must use the actual base
+	let setbase: Option<u64> = if !file && rng.chance(1, 3) {
+		Some(match rng.below(4) { 0 => 0, 1 => if pe64 { 0xFFFF_FFFF_FFFF_0000 } else { 0xFFFF_8000 }, 2 => if pe64 { 0x7ff6_1234_0000 } else { 0x0123_0000 }, _ => 0x7000_0000 })
+	} else { None };
 	format!(
-		"exports fmt={} file={} place={} {} soh={} soi={} base={} secs={} dd={} q={}",
-		if pe64 { 64 } else { 32 }, file as u8, place, img.encode(), spec.soh, spec.soi, spec.image_base, secs_field(&spec.secs),
+		"exports fmt={} file={} place={} {} soh={} soi={} base={} setbase={} secs={} dd={} q={}",
+		if pe64 { 64 } else { 32 }, file as u8, place, img.encode(), spec.soh, spec.soi, spec.image_base, setbase.map(|b| b.to_string()).unwrap_or("-".to_string()), secs_field(&spec.secs),
 		if have_dd { format!("{}:{}", dva, dsize) } else { "-".to_string() }, join(&qs, ",")
 	)
 }
@@ -408,6 +412,7 @@ fn run(case: &str) -> String {
 	let buf = Aligned::new(&bytes, place);
 	let b = buf.bytes();
 	let file = field(case, "file") == "1";
+	let setbase: Option<u64> = if case.contains(" setbase=") && field(case, "setbase") != "-" { Some(field(case, "setbase").parse().unwrap()) } else { None };
 	let qs: Vec<&str> = split(field(case, "q"), ',');
 	if file {
 		let w = match pelite::PeFile::from_bytes(b) { Ok(w) => w, Err(e) => return format!("!ctor-wrap {:?}", e) };
@@ -419,8 +424,8 @@ fn run(case: &str) -> String {
 	else {
 		let w = match pelite::PeView::from_bytes(b) { Ok(w) => w, Err(e) => return format!("!ctor-wrap {:?}", e) };
 		match field(case, "fmt") {
-			"32" => match pe32::PeView::from_bytes(b) { Ok(v) => run_exports!(pe32, v, w, qs.iter()), Err(e) => format!("!ctor {:?}", e) },
-			_ => match pe64::PeView::from_bytes(b) { Ok(v) => run_exports!(pe64, v, w, qs.iter()), Err(e) => format!("!ctor {:?}", e) },
+			"32" => match pe32::PeView::from_bytes(b) { Ok(v) => { let v = match setbase { Some(x) => v.set_base_address(x as u32), None => v }; run_exports!(pe32, v, w, qs.iter()) }, Err(e) => format!("!ctor {:?}", e) },
+			_ => match pe64::PeView::from_bytes(b) { Ok(v) => { let v = match setbase { Some(x) => v.set_base_address(x), None => v }; run_exports!(pe64, v, w, qs.iter()) }, Err(e) => format!("!ctor {:?}", e) },
 		}
 	}
 }
